@@ -29,7 +29,7 @@ const (
 type ContinuousDrive int16
 
 func (ccd ContinuousDrive) String() string {
-	if int(ccd) < len(strContinuousDriveDist)-1 {
+	if ccd >= 0 && int(ccd) < len(strContinuousDriveDist)-1 {
 		return strContinuousDriveString[strContinuousDriveDist[ccd]:strContinuousDriveDist[ccd+1]]
 	}
 	return "Unknown"
